@@ -5,6 +5,7 @@ Semantic preservation of each rewrite is NOT decided.  Decided structural clause
   RESTORE-LEAVES  every leaf whose failure can leave the stack modified is recognised by the restorer
   RESTORE-WRAP    every branching operator whose failed child is absorbed is wrapped by the restorer
   UNROLL          the variants the conversion declares unreachable are exactly those unroll removes
+  WSGUARD         rule-type tests that enable whitespace-sensitive rewrites admit only @ and $ rules
   PIPELINE        every pass is applied to every rule; unroll precedes conversion; the restorer runs last
                   on the converted rules
 """
@@ -64,6 +65,7 @@ def run(rep, tier):
         wrap(rep, meta, vm, sfx)
         unroll(rep, meta, sfx)
         pipeline(rep, meta, sfx)
+        wsguard(rep, meta, sfx)
 
 
 def generic_traversals(meta, roots, enums):
@@ -486,3 +488,89 @@ def pipeline(rep, meta, sfx):
 
 def line_of(n):
     return hirq.line(n)
+
+
+# ------------------------------------------------------------------ WSGUARD
+
+RULETYPE = "pest_meta::ast::RuleType"
+NO_IMPLICIT_WS = {"Atomic", "CompoundAtomic"}   # oracle: derive/src/lib.rs "@ atomic", "$ compound atomic"
+
+
+def ruletype_truth(cond, variants):
+    """Set of RuleType variants for which cond CAN be true, or None if cond does not test a RuleType."""
+    cond = peel(cond)
+    k = kind(cond)
+    if k == "Unary" and cond["op"] == "!":
+        inner = ruletype_truth(cond["e"], variants)
+        return None if inner is None else set(variants) - inner
+    if k == "Binary" and cond["op"] in ("&&", "||"):
+        a, b = ruletype_truth(cond["l"], variants), ruletype_truth(cond["r"], variants)
+        if a is None and b is None:
+            return None
+        if cond["op"] == "&&":
+            return (a if a is not None else set(variants)) & (b if b is not None else set(variants))
+        if a is None or b is None:
+            return set(variants)
+        return a | b
+    if k == "Binary" and cond["op"] in ("==", "!="):
+        for x, y in ((cond["l"], cond["r"]), (cond["r"], cond["l"])):
+            y = peel(y)
+            if kind(y) == "Path" and y.get("res") == "def" and y.get("path", "").startswith(RULETYPE + "::"):
+                s = {y["path"].split("::")[-1]}
+                return s if cond["op"] == "==" else set(variants) - s
+        return None
+    if k == "MethodCall" and cond.get("path") in ("core::cmp::PartialEq::eq", "core::cmp::PartialEq::ne"):
+        y = peel(cond["args"][0])
+        if kind(y) == "Path" and y.get("path", "").startswith(RULETYPE + "::"):
+            s = {y["path"].split("::")[-1]}
+            return s if cond["path"].endswith("::eq") else set(variants) - s
+        return None
+    if k == "Match" and RULETYPE in cond.get("sty", ""):
+        out = set()
+        remaining = list(variants)
+        for arm in cond["arms"]:
+            pv = [v.split("::")[-1] for v in hirq.pat_variants(arm["pat"])]
+            hit = [v for v in remaining if v in pv] if not hirq.pat_is_catchall(arm["pat"]) else list(remaining)
+            val = hirq.lit_value(arm["body"])
+            for v in hit:
+                remaining.remove(v)
+                if val is not False:
+                    out.add(v)
+        return out
+    return None
+
+
+def wsguard(rep, meta, sfx):
+    r = rep.rule("C05.WSGUARD" + sfx, 3,
+                 "every rule-type test that enables a rewrite in an optimizer pass can be true only for rule "
+                 "types without implicit whitespace (@ and $): rewrites that move or merge sequence elements "
+                 "are unsound where WHITESPACE/COMMENT is skipped between them")
+    adt = meta.adt(RULETYPE)
+    if adt is None:
+        r.lost("ast::RuleType")
+        return
+    variants = [v["name"] for v in adt["variants"]]
+    n = 0
+    for fn in meta.bodies:
+        if not fn["path"].startswith("pest_meta::optimizer::") or fn.get("exp"):
+            continue
+        conds = []
+        for x in walk(fn["body"]):
+            if kind(x) == "If":
+                conds.append(x["cond"])
+            elif kind(x) == "Match":
+                for arm in x["arms"]:
+                    if arm.get("guard") is not None:
+                        conds.append(arm["guard"])
+        for cnd in conds:
+            ts = ruletype_truth(cnd, variants)
+            if ts is None:
+                continue
+            n += 1
+            key = "%s:%s" % (fn["path"].replace("pest_meta::optimizer::", ""), "+".join(sorted(ts)))
+            r.instance(key, where(cnd), "rewrite enabled for %s" % sorted(ts))
+            if not ts <= NO_IMPLICIT_WS:
+                r.violation(key, where(cnd),
+                            "the guarded rewrite is enabled for rule types %s, which skip implicit "
+                            "WHITESPACE/COMMENT between sequence elements; the pass's rewrites are only "
+                            "meaning-preserving for %s" % (sorted(ts - NO_IMPLICIT_WS), sorted(NO_IMPLICIT_WS)))
